@@ -171,6 +171,8 @@ variable {κ₁ κ₂ : Type}
 /-- the data of a congruence -/
 structure Cong (κ₁ κ₂ : Type) where
   Rx : Ctx κ₁ → Ctx κ₂ → Prop
+  /-- an invariant of the action-set registers (e.g. "the lexer has no pending feedback directive") -/
+  Jr : Regs → Prop
   Stop : M κ₁ × Option Signal → Prop
   Good : Option Signal → Prop
 
@@ -178,7 +180,7 @@ namespace Cong
 variable (C : Cong κ₁ κ₂)
 
 /-- related machines -/
-def MR (m₁ : M κ₁) (m₂ : M κ₂) : Prop := m₁.c = m₂.c ∧ m₁.r = m₂.r ∧ C.Rx m₁.x m₂.x
+def MR (m₁ : M κ₁) (m₂ : M κ₂) : Prop := m₁.c = m₂.c ∧ m₁.r = m₂.r ∧ C.Jr m₁.r ∧ C.Rx m₁.x m₂.x
 
 /-- related step results -/
 def Out (r₁ : M κ₁ × Option Signal) (r₂ : M κ₂ × Option Signal) : Prop :=
@@ -203,22 +205,30 @@ structure Ok (env₁ : Env κ₁) (env₂ : Env κ₂) (inp : Bytes) : Prop wher
   silent : ∀ a m₁, a.callsSink = false → ¬ C.Stop (Model.act env₁ a inp m₁)
   pc : ∀ x₁ x₂ n, C.Rx x₁ x₂ →
     C.Rx { x₁ with prevConsumed := x₁.prevConsumed + n } { x₂ with prevConsumed := x₂.prevConsumed + n }
+  jr_enter : ∀ c r, C.Jr r → C.Jr (enterSeqR c r)
+  jr_leave : ∀ r, C.Jr r → C.Jr (leaveSeqR r)
+  jr_adjust : ∀ r, C.Jr r → C.Jr (adjustR r)
+  jr_load : ∀ bm (l : LexRegs), C.Good (some (.directive .lex bm)) → C.Jr (.lexer l) →
+    C.Jr (.lexer { l with lexemeStart := bm.pos, fd := bm.fd })
 
 section
 variable {C} {env₁ : Env κ₁} {env₂ : Env κ₂} {inp : Bytes}
 
-theorem MR.mk' {c : Common} {r : Regs} {x₁ : Ctx κ₁} {x₂ : Ctx κ₂} (h : C.Rx x₁ x₂) :
-    C.MR ⟨c, r, x₁⟩ ⟨c, r, x₂⟩ := ⟨rfl, rfl, h⟩
-
 /-- related machines are the same machine up to the context -/
 theorem MR.cases {m₁ : M κ₁} {m₂ : M κ₂} (h : C.MR m₁ m₂) :
-    ∃ c r x₁ x₂, m₁ = ⟨c, r, x₁⟩ ∧ m₂ = ⟨c, r, x₂⟩ ∧ C.Rx x₁ x₂ := by
+    ∃ c r x₁ x₂, m₁ = ⟨c, r, x₁⟩ ∧ m₂ = ⟨c, r, x₂⟩ ∧ C.Jr r ∧ C.Rx x₁ x₂ := by
   obtain ⟨c₁, r₁, x₁⟩ := m₁
   obtain ⟨c₂, r₂, x₂⟩ := m₂
-  obtain ⟨h1, h2, h3⟩ := h
-  simp only at h1 h2 h3
+  obtain ⟨h1, h2, hj, h3⟩ := h
+  simp only at h1 h2 h3 hj
   subst h1 h2
-  exact ⟨_, _, _, _, rfl, rfl, h3⟩
+  exact ⟨_, _, _, _, rfl, rfl, hj, h3⟩
+
+theorem Ok.jr_break (h : C.Ok env₁ env₂ inp) (c : Common) {r : Regs} (hj : C.Jr r) :
+    C.Jr (breakCR inp c r).2.1 := by
+  unfold breakCR
+  dsimp only
+  split <;> (split <;> first | exact hj | exact h.jr_adjust _ hj)
 
 theorem Ok.stop_some (h : C.Ok env₁ env₂ inp) (m : M κ₁) : ¬ C.Stop (m, none) := by
   intro hs
@@ -306,9 +316,9 @@ theorem runSeq_cong (h : C.Ok env₁ env₂ inp) (s : ActSeq) (hc : s.calls.all 
       | none => exact .inr ⟨hmr, rfl, h.good_none⟩
       | some t =>
         simp only
-        obtain ⟨c, r, x₁, x₂, e1, e2, hx⟩ := hmr.cases
+        obtain ⟨c, r, x₁, x₂, e1, e2, hj, hx⟩ := hmr.cases
         rw [e1, e2, applyTrans_eq, applyTrans_eq, h.tbl]
-        exact .inr ⟨⟨rfl, rfl, hx⟩, rfl, h.good_plumb (transC_sig _ _ _)⟩
+        exact .inr ⟨⟨rfl, rfl, hj, hx⟩, rfl, h.good_plumb (transC_sig _ _ _)⟩
 
 theorem cond_cong {c : Common} {r : Regs} {x₁ : Ctx κ₁} {x₂ : Ctx κ₂} (cnd : Cond) :
     cond cnd (⟨c, r, x₁⟩ : M κ₁) = cond cnd (⟨c, r, x₂⟩ : M κ₂) := by
@@ -321,15 +331,15 @@ theorem runBody_cong (h : C.Ok env₁ env₂ inp) (b : Body)
   cases b with
   | seq s => exact runSeq_cong h s (hc s (by simp [Body.seqs])) m₁ m₂ hm
   | ite cnd t e =>
-    obtain ⟨c, r, x₁, x₂, rfl, rfl, hx⟩ := hm.cases
+    obtain ⟨c, r, x₁, x₂, rfl, rfl, hj, hx⟩ := hm.cases
     simp only [runBody]
     rw [cond_cong (x₁ := x₁) (x₂ := x₂) cnd]
     cases cond cnd (⟨c, r, x₂⟩ : M κ₂) with
-    | none => exact .inr ⟨⟨rfl, rfl, hx⟩, rfl, h.good_panic _⟩
+    | none => exact .inr ⟨⟨rfl, rfl, hj, hx⟩, rfl, h.good_panic _⟩
     | some b =>
       cases b
-      · exact runSeq_cong h e (hc e (by simp [Body.seqs])) _ _ ⟨rfl, rfl, hx⟩
-      · exact runSeq_cong h t (hc t (by simp [Body.seqs])) _ _ ⟨rfl, rfl, hx⟩
+      · exact runSeq_cong h e (hc e (by simp [Body.seqs])) _ _ ⟨rfl, rfl, hj, hx⟩
+      · exact runSeq_cong h t (hc t (by simp [Body.seqs])) _ _ ⟨rfl, rfl, hj, hx⟩
 
 theorem seqs_checked {a : Arm} (h : (callsOfArm a).all Call.checked = true) :
     ∀ s ∈ a.body.seqs, s.calls.all Call.checked = true := by
@@ -340,31 +350,34 @@ theorem seqs_checked {a : Arm} (h : (callsOfArm a).all Call.checked = true) :
   exact h cl (List.mem_flatMap.mpr ⟨s, hs, hcl⟩)
 
 theorem runSeqArms_cong (h : C.Ok env₁ env₂ inp) (ch : Option UInt8) (arms : List Arm)
-    (ha : ArmsChecked arms) (c : Common) (r : Regs) (x₁ : Ctx κ₁) (x₂ : Ctx κ₂) (hx : C.Rx x₁ x₂) :
+    (ha : ArmsChecked arms) (c : Common) (r : Regs) (x₁ : Ctx κ₁) (x₂ : Ctx κ₂) (hj : C.Jr r)
+    (hx : C.Rx x₁ x₂) :
     C.OutSum (runSeqArms env₁ inp ch arms ⟨c, r, x₁⟩) (runSeqArms env₂ inp ch arms ⟨c, r, x₂⟩) := by
   induction arms generalizing r with
-  | nil => exact ⟨rfl, rfl, hx⟩
+  | nil => exact ⟨rfl, rfl, hj, hx⟩
   | cons arm rest ih =>
     have ha' : ArmsChecked rest := fun a h' => ha a (List.mem_cons_of_mem _ h')
     have hb := seqs_checked (ha arm (by simp))
+    have hje : C.Jr (enterSeqR c r) := h.jr_enter c r hj
+    have hjl : C.Jr (leaveSeqR (enterSeqR c r)) := h.jr_leave _ hje
     cases hp : arm.pat with
     | chSeq bytes ic =>
       simp only [runSeqArms, hp, enterSeq_eq, leaveSeq_eq]
       cases bytes with
-      | nil => exact ih ha' _
+      | nil => exact ih ha' _ hjl
       | cons e0 es =>
         simp only
         split
         · simp only [break_eq]
-          exact .inr ⟨⟨rfl, rfl, hx⟩, rfl, h.good_plumb (breakCR_sig _ _ _)⟩
-        · exact ih ha' _
+          exact .inr ⟨⟨rfl, rfl, h.jr_break _ hje, hx⟩, rfl, h.good_plumb (breakCR_sig _ _ _)⟩
+        · exact ih ha' _ hjl
         · have := runBody_cong h arm.body hb
             ⟨{ c with nextPos := c.nextPos + es.length }, leaveSeqR (enterSeqR c r), x₁⟩
-            ⟨{ c with nextPos := c.nextPos + es.length }, leaveSeqR (enterSeqR c r), x₂⟩ ⟨rfl, rfl, hx⟩
+            ⟨{ c with nextPos := c.nextPos + es.length }, leaveSeqR (enterSeqR c r), x₂⟩ ⟨rfl, rfl, hjl, hx⟩
           rcases this with hs | ⟨a, b, g⟩
           · exact .inl hs
           · exact .inr ⟨a, by rw [b], g⟩
-    | _ => simp only [runSeqArms, hp]; exact ih ha' _
+    | _ => simp only [runSeqArms, hp]; exact ih ha' _ hj
 
 /-- the tail of an `eoc`/`eof` arm: propagate a signal, stop after a transition, else break -/
 theorem finishArm_cong (h : C.Ok env₁ env₂ inp) (t₁ : M κ₁ × Option Signal × SeqEnd)
@@ -393,16 +406,16 @@ theorem finishArm_cong (h : C.Ok env₁ env₂ inp) (t₁ : M κ₁ × Option Si
       cases e₁ with
       | transitioned => exact .inr ⟨hmr, rfl, h.good_none⟩
       | fell =>
-        obtain ⟨c, r, x₁, x₂, rfl, rfl, hx⟩ := hmr.cases
+        obtain ⟨c, r, x₁, x₂, rfl, rfl, hj, hx⟩ := hmr.cases
         simp only [break_eq]
-        exact .inr ⟨⟨rfl, rfl, hx⟩, rfl, h.good_plumb (breakCR_sig _ _ _)⟩
+        exact .inr ⟨⟨rfl, rfl, h.jr_break _ hj, hx⟩, rfl, h.good_plumb (breakCR_sig _ _ _)⟩
 
 theorem dispatch_cong (h : C.Ok env₁ env₂ inp) (ch : Option UInt8) (arms : List Arm)
     (ha : ArmsChecked arms) (m₁ : M κ₁) (m₂ : M κ₂) (hm : C.MR m₁ m₂) :
     C.Out (dispatch env₁ inp ch arms m₁) (dispatch env₂ inp ch arms m₂) := by
-  obtain ⟨c, r, x₁, x₂, rfl, rfl, hx⟩ := hm.cases
+  obtain ⟨c, r, x₁, x₂, rfl, rfl, hj, hx⟩ := hm.cases
   unfold dispatch
-  have hsa := runSeqArms_cong h ch arms ha c r x₁ x₂ hx
+  have hsa := runSeqArms_cong h ch arms ha c r x₁ x₂ hj hx
   cases h1 : runSeqArms env₁ inp ch arms ⟨c, r, x₁⟩ with
   | inl r₁ =>
     cases h2 : runSeqArms env₂ inp ch arms ⟨c, r, x₂⟩ with
@@ -413,13 +426,13 @@ theorem dispatch_cong (h : C.Ok env₁ env₂ inp) (ch : Option UInt8) (arms : L
     | inl _ => rw [h1, h2] at hsa; exact hsa.elim
     | inr m₂' =>
       rw [h1, h2] at hsa
-      obtain ⟨c', r', y₁, y₂, rfl, rfl, hy⟩ := Cong.MR.cases hsa
+      obtain ⟨c', r', y₁, y₂, rfl, rfl, hj', hy⟩ := Cong.MR.cases hsa
       simp only [h.tbl]
       cases hf : findArm env₂.tbl c' ch arms with
-      | none => exact .inr ⟨⟨rfl, rfl, hy⟩, rfl, h.good_panic _⟩
+      | none => exact .inr ⟨⟨rfl, rfl, hj', hy⟩, rfl, h.good_panic _⟩
       | some arm =>
         have hb := seqs_checked (ha arm (findArm_mem hf))
-        have hbody := runBody_cong h arm.body hb ⟨c', r', y₁⟩ ⟨c', r', y₂⟩ ⟨rfl, rfl, hy⟩
+        have hbody := runBody_cong h arm.body hb ⟨c', r', y₁⟩ ⟨c', r', y₂⟩ ⟨rfl, rfl, hj', hy⟩
         simp only
         cases hp : arm.pat with
         | eoc => simp only; exact finishArm_cong h _ _ hbody
@@ -428,7 +441,7 @@ theorem dispatch_cong (h : C.Ok env₁ env₂ inp) (ch : Option UInt8) (arms : L
           by_cases hl : c'.isLast = true
           · simp only [hl, if_true]; exact finishArm_cong h _ _ hbody
           · simp only [hl, Bool.false_eq_true, if_false, break_eq]
-            exact .inr ⟨⟨rfl, rfl, hy⟩, rfl, h.good_plumb (breakCR_sig _ _ _)⟩
+            exact .inr ⟨⟨rfl, rfl, h.jr_break _ hj', hy⟩, rfl, h.good_plumb (breakCR_sig _ _ _)⟩
         | _ =>
           simp only
           rcases hbody with hs | ⟨a, b, g⟩
@@ -438,13 +451,13 @@ theorem dispatch_cong (h : C.Ok env₁ env₂ inp) (ch : Option UInt8) (arms : L
 theorem sfPre_cong (h : C.Ok env₁ env₂ inp) (sd : StateDef) (hc : sd.enter.all Call.checked = true)
     (m₁ : M κ₁) (m₂ : M κ₂) (hm : C.MR m₁ m₂) :
     C.Out (sfPre env₁ inp sd m₁) (sfPre env₂ inp sd m₂) := by
-  obtain ⟨c, r, x₁, x₂, rfl, rfl, hx⟩ := hm.cases
+  obtain ⟨c, r, x₁, x₂, rfl, rfl, hj, hx⟩ := hm.cases
   unfold sfPre
   dsimp only
   by_cases hcond : (!sd.enter.isEmpty && !c.entered) = true
   · simp only [hcond, if_true]
     rcases runCalls_cong h sd.enter hc ⟨{ c with nextPos := c.nextPos + 1 }, r, x₁⟩
-        ⟨{ c with nextPos := c.nextPos + 1 }, r, x₂⟩ ⟨rfl, rfl, hx⟩ with hs | ⟨hmr, hsig, hg⟩
+        ⟨{ c with nextPos := c.nextPos + 1 }, r, x₂⟩ ⟨rfl, rfl, hj, hx⟩ with hs | ⟨hmr, hsig, hg⟩
     · obtain ⟨sig, h2⟩ := h.stop_sig hs
       left
       simp only [h2]
@@ -459,10 +472,10 @@ theorem sfPre_cong (h : C.Ok env₁ env₂ inp) (sd : StateDef) (hc : sd.enter.a
         exact .inr ⟨hmr, by first | rfl | trivial, hg⟩
       | none =>
         try simp only [h2] at hg ⊢
-        obtain ⟨h1, h2', h3⟩ := hmr
-        exact .inr ⟨⟨by simp only [h1], h2', h3⟩, by first | rfl | trivial, h.good_none⟩
+        obtain ⟨h1, h2', hj', h3⟩ := hmr
+        exact .inr ⟨⟨by simp only [h1], h2', hj', h3⟩, by first | rfl | trivial, h.good_none⟩
   · simp only [hcond, Bool.false_eq_true, if_false]
-    exact .inr ⟨⟨rfl, rfl, hx⟩, rfl, h.good_none⟩
+    exact .inr ⟨⟨rfl, rfl, hj, hx⟩, rfl, h.good_none⟩
 
 theorem sfRest_cong (h : C.Ok env₁ env₂ inp) (sd : StateDef) (ha : ArmsChecked sd.arms)
     (p₁ : StepRes κ₁) (p₂ : StepRes κ₂) (hp : C.Out p₁ p₂) :
@@ -480,15 +493,15 @@ theorem sfRest_cong (h : C.Ok env₁ env₂ inp) (sd : StateDef) (ha : ArmsCheck
     cases s₁ with
     | some sig => exact .inr ⟨hmr, rfl, hg⟩
     | none =>
-      obtain ⟨c, r, x₁, x₂, rfl, rfl, hx⟩ := Cong.MR.cases hmr
+      obtain ⟨c, r, x₁, x₂, rfl, rfl, hj, hx⟩ := Cong.MR.cases hmr
       dsimp only
       cases sd.memchr with
-      | none => exact dispatch_cong h _ _ ha _ _ ⟨rfl, rfl, hx⟩
+      | none => exact dispatch_cong h _ _ ha _ _ ⟨rfl, rfl, hj, hx⟩
       | some needle =>
         dsimp only
         cases findByte needle (List.drop c.nextPos inp) with
-        | none => exact dispatch_cong h _ _ ha _ _ ⟨rfl, rfl, hx⟩
-        | some p => exact dispatch_cong h _ _ ha _ _ ⟨rfl, rfl, hx⟩
+        | none => exact dispatch_cong h _ _ ha _ _ ⟨rfl, rfl, hj, hx⟩
+        | some p => exact dispatch_cong h _ _ ha _ _ ⟨rfl, rfl, hj, hx⟩
 
 theorem stateFn_cong (h : C.Ok env₁ env₂ inp) (ht : EmitsChecked env₁.tbl = true)
     (m₁ : M κ₁) (m₂ : M κ₂) (hm : C.MR m₁ m₂) :
@@ -529,7 +542,7 @@ theorem runLoop_cong (h : C.Ok env₁ env₂ inp) (ht : EmitsChecked env₁.tbl 
 /-- related parsers: everything equal but the contexts, which are `Rx`-related -/
 def PR (C : Cong κ₁ κ₂) (p₁ : Parser κ₁) (p₂ : Parser κ₂) : Prop :=
   p₁.lexC = p₂.lexC ∧ p₁.lexR = p₂.lexR ∧ p₁.scanC = p₂.scanC ∧ p₁.scanR = p₂.scanR ∧
-  p₁.directive = p₂.directive ∧ C.Rx p₁.x p₂.x
+  p₁.directive = p₂.directive ∧ C.Rx p₁.x p₂.x ∧ C.Jr (.lexer p₁.lexR) ∧ C.Jr (.scanner p₁.scanR)
 
 /-- how `Parser.parse` reports an error signal (parser/mod.rs:96-101) -/
 def sigErr : Err → Err
@@ -544,31 +557,32 @@ def POut (C : Cong κ₁ κ₂) (r₁ : Parser κ₁ × Except Err Nat) (r₂ : 
 
 theorem machine_cong {p₁ : Parser κ₁} {p₂ : Parser κ₂} (hp : C.PR p₁ p₂) (last : Bool) :
     C.MR (p₁.machine last) (p₂.machine last) := by
-  obtain ⟨h1, h2, h3, h4, h5, h6⟩ := hp
+  obtain ⟨h1, h2, h3, h4, h5, h6, j1, j2⟩ := hp
   unfold Parser.machine
   rw [← h5]
   cases p₁.directive
-  · exact ⟨by simp only [h3], by simp only [h4], h6⟩
-  · exact ⟨by simp only [h1], by simp only [h2], h6⟩
+  · exact ⟨by simp only [h3], by simp only [h4], j2, h6⟩
+  · exact ⟨by simp only [h1], by simp only [h2], j1, h6⟩
 
 theorem store_cong {p₁ : Parser κ₁} {p₂ : Parser κ₂} (hp : C.PR p₁ p₂) {m₁ : M κ₁} {m₂ : M κ₂}
     (hm : C.MR m₁ m₂) : C.PR (p₁.store m₁) (p₂.store m₂) := by
-  obtain ⟨h1, h2, h3, h4, h5, h6⟩ := hp
-  obtain ⟨c, r, x₁, x₂, rfl, rfl, hx⟩ := hm.cases
+  obtain ⟨h1, h2, h3, h4, h5, h6, j1, j2⟩ := hp
+  obtain ⟨c, r, x₁, x₂, rfl, rfl, hj, hx⟩ := hm.cases
   cases r with
-  | lexer l => exact ⟨rfl, rfl, h3, h4, h5, hx⟩
-  | scanner s => exact ⟨h1, h2, rfl, rfl, h5, hx⟩
+  | lexer l => exact ⟨rfl, rfl, h3, h4, h5, hx, hj, j2⟩
+  | scanner s => exact ⟨h1, h2, rfl, rfl, h5, hx, j1, hj⟩
 
 theorem store_x' {κ : Type} (p : Parser κ) (m : M κ) : (p.store m).x = m.x := by
   unfold Parser.store; split <;> rfl
 
 theorem loadBookmark_cong (h : C.Ok env₁ env₂ inp) {p₁ : Parser κ₁} {p₂ : Parser κ₂} (hp : C.PR p₁ p₂)
-    (d : Directive) (bm : Bookmark) : C.PR (loadBookmark env₁ d bm p₁) (loadBookmark env₂ d bm p₂) := by
-  obtain ⟨h1, h2, h3, h4, h5, h6⟩ := hp
+    (d : Directive) (bm : Bookmark) (hg : C.Good (some (.directive d bm))) :
+    C.PR (loadBookmark env₁ d bm p₁) (loadBookmark env₂ d bm p₂) := by
+  obtain ⟨h1, h2, h3, h4, h5, h6, j1, j2⟩ := hp
   unfold loadBookmark
   cases d
-  · exact ⟨h1, h2, by simp only [h3, h.tbl], h4, rfl, h6⟩
-  · exact ⟨by simp only [h1, h.tbl], by simp only [h2], h3, h4, rfl, h6⟩
+  · exact ⟨h1, h2, by simp only [h3, h.tbl], h4, rfl, h6, j1, j2⟩
+  · exact ⟨by simp only [h1, h.tbl], by simp only [h2], h3, h4, rfl, h6, h.jr_load bm _ hg j1, j2⟩
 
 theorem parseLoop_cong (h : C.Ok env₁ env₂ inp) (ht : EmitsChecked env₁.tbl = true) (last : Bool)
     (n : Nat) (p₁ : Parser κ₁) (p₂ : Parser κ₂) (hp : C.PR p₁ p₂) :
@@ -591,11 +605,11 @@ theorem parseLoop_cong (h : C.Ok env₁ env₂ inp) (ht : EmitsChecked env₁.tb
       cases hsg : (runLoop env₁ inp (defaultFuel inp) (p₁.machine last)).2 with
       | endOfInput consumed =>
         try simp only [hsg] at hg ⊢
-        obtain ⟨h1, h2, h3, h4, h5, h6⟩ := hst
-        exact .inr ⟨⟨h1, h2, h3, h4, h5, h.pc _ _ _ h6⟩, by first | rfl | trivial, fun e he => by cases he⟩
+        obtain ⟨h1, h2, h3, h4, h5, h6, j1, j2⟩ := hst
+        exact .inr ⟨⟨h1, h2, h3, h4, h5, h.pc _ _ _ h6, j1, j2⟩, by first | rfl | trivial, fun e he => by cases he⟩
       | directive d bm =>
         try simp only [hsg] at hg ⊢
-        exact ih _ _ (loadBookmark_cong h hst d bm)
+        exact ih _ _ (loadBookmark_cong h hst d bm hg)
       | err e =>
         try simp only [hsg] at hg ⊢
         cases e with
